@@ -24,11 +24,45 @@ def gen_cases(rng, n, tier):
     cfgs = [c for c in B.all_cfgs('blog') + B.all_cfgs('comp')[::2] + B.all_cfgs('blog', dict(class_names=True))[::2]
             + B.all_cfgs('comp', dict(class_names=True))[::4] + [c for c in B.all_cfgs('inh') if not c['null_delete']]
             if c['strategy'] == 'validity']
-    return B.gen_cases_default(rng, n, tier, cfgs=cfgs)
+    cases = B.gen_cases_default(rng, n, tier, cfgs=cfgs)
+    inh = [c for c in B.all_cfgs('inh') if not c['null_delete'] and c['strategy'] == 'validity']
+    for i in range(max(12, n // 12)):
+        cases.append(dict(cfg=inh[i % len(inh)], prog=gen_hop_program(rng)))
+    return cases
+
+
+def gen_hop_program(rng):
+    """joined / single-table hierarchy: keys that come back as another class of the hierarchy in later transactions"""
+    vals = {0: lambda: {'a': rng.choice([0, 1, 2])}, 1: lambda: {'a': rng.choice([0, 1]), 'pages': rng.choice([0, 1, 2])},
+            2: lambda: {'a': rng.choice([0, 1]), 'tracks': rng.choice([0, 1, 2])}}
+    prog, held = [], {}
+    for _ in range(rng.randint(5, 12)):
+        k = rng.choice([1, 2])
+        if k in held:
+            c = held[k]
+            r = rng.random()
+            if r < 0.55:
+                prog.append(['del', c, k])
+                del held[k]
+            else:
+                prog.append(['set', c, k, vals[c]()])
+                if rng.random() < 0.3:
+                    prog.append(['flush'])
+                    prog.append(['set', c, k, vals[c]()])
+        else:
+            c = rng.choice([0, 1, 1, 2])
+            prog.append(['add', c, k, vals[c]()])
+            held[k] = c
+        prog.append(['commit'])
+    return prog
 
 
 def corpus():
-    return [dict(cfg=dict(shape='blog', strategy='validity'),
+    inh = dict(shape='inh', strategy='validity', changes=False, tracker=False, null_delete=False, autoflush=False)
+    return [dict(cfg=inh, prog=[['add', 1, 1, {'a': 1, 'pages': 1}], ['commit'], ['del', 1, 1], ['commit'],
+                                ['add', 0, 1, {'a': 2}], ['commit'], ['del', 0, 1], ['commit'],
+                                ['add', 1, 1, {'a': 3, 'pages': 3}], ['commit']]),
+            dict(cfg=dict(shape='blog', strategy='validity'),
                  prog=[['add', 0, 1, {'a': 1}], ['add', 0, 2, {'a': 1}], ['commit'], ['set', 0, 1, {'a': 2}], ['flush'],
                        ['set', 0, 1, {'a': 0}], ['commit'], ['del', 0, 1], ['flush'], ['add', 0, 1, {'a': 5}], ['commit'],
                        ['del', 0, 1], ['commit'], ['add', 0, 1, {'a': 7}], ['commit']])]
